@@ -109,6 +109,20 @@ static int setPosition(char *val, MPT_INTERFACE(convertable) *src, int def)
 	}
 	return 0;
 }
+/* replace the content by a copy (or the defaults); unchanged when a string can not be duplicated */
+static int axisAssign(MPT_STRUCT(axis) *ax, const MPT_STRUCT(axis) *from)
+{
+	MPT_STRUCT(axis) tmp;
+	
+	mpt_axis_init(&tmp, from);
+	if (from && from->_title && !tmp._title) {
+		mpt_axis_fini(&tmp);
+		return MPT_ERROR(BadOperation);
+	}
+	mpt_axis_fini(ax);
+	*ax = tmp;
+	return 0;
+}
 /*!
  * \ingroup mptPlot
  * \brief set axis properties
@@ -137,9 +151,7 @@ extern int mpt_axis_set(MPT_STRUCT(axis) *ax, const char *name, MPT_INTERFACE(co
 			if (len && from == ax) {
 				return 0;
 			}
-			mpt_axis_fini(ax);
-			mpt_axis_init(ax, len ? from : 0);
-			return 0;
+			return axisAssign(ax, len ? from : 0);
 		}
 		if ((len = mpt_string_pset(&ax->_title, src)) >= 0) {
 			return len;
@@ -161,9 +173,7 @@ extern int mpt_axis_set(MPT_STRUCT(axis) *ax, const char *name, MPT_INTERFACE(co
 			if (len && from == ax) {
 				return 0;
 			}
-			mpt_axis_fini(ax);
-			mpt_axis_init(ax, len ? from : 0);
-			return 0;
+			return axisAssign(ax, len ? from : 0);
 		}
 		return MPT_ERROR(BadType);
 	}
